@@ -114,7 +114,8 @@ def cmd (st : St) : P (St × String) := do
         | some x => (vt, if x == vh then c else c + 1)
         | none => ((pk, vh) :: vt, c)
       (kt, vt, c)) (st.keyTab, st.valTab, 0)
-    let slot : Slot := { depth := depth, order := es.map (·.1), state := NMap.ofList (es.map fun e => (e.1, e.2.2.2)) }
+    -- the op line carries the CONFIGURED depth; every model function gets the effective one
+    let slot : Slot := { depth := effectiveDepth currentDepthBound depth, order := es.map (·.1), state := NMap.ofList (es.map fun e => (e.1, e.2.2.2)) }
     let st' := { st with keyTab := kt, valTab := vt }
     let st' := if isA then { st' with a := slot } else { st' with b := slot }
     pure (st', s!"ok {slot.state.length} conflicts={c}")
@@ -134,14 +135,14 @@ def cmd (st : St) : P (St × String) := do
     pure (st, s!"differs={d} div=" ++ ",".intercalate ((divergentBuckets dx dy).map toString))
   | "G" => do
     let isA ← slotTok
-    let limit ← nat
+    let limit := effectiveLimit currentLimitAtLeastOne (← nat)
     let nb ← nat
     let bs ← repeatP nb nat
     let s := st.slot isA
     let ks := getKeysInBuckets (arrangeOf currentSimOrder keyLe) st.hasher currentStream s.depth limit s.order s.state bs
     pure (st, " ".intercalate ("g" :: ks.map (fun p => showKey p.1)))
   | "SYNC" => do
-    let limit ← nat
+    let limit := effectiveLimit currentLimitAtLeastOne (← nat)
     let (a', b') := syncRound keyLe st.hasher st.a.depth limit st.a.order st.b.order st.a.state st.b.state
     let st' := { st with a := { st.a with state := a', order := NMap.keys a' },
                          b := { st.b with state := b', order := NMap.keys b' } }
@@ -149,7 +150,7 @@ def cmd (st : St) : P (St × String) := do
   | "PULL" => do
     let isA ← slotTok
     let full ← nat
-    let limit ← nat
+    let limit := effectiveLimit currentLimitAtLeastOne (← nat)
     let rq := st.slot isA
     let pr := st.slot (!isA)
     let (d, div, resp, r') := pull st.hasher rq.depth limit (full != 0) rq.order pr.order rq.state pr.state
@@ -160,7 +161,7 @@ def cmd (st : St) : P (St × String) := do
   | "ALLOC" => do
     let d ← nat
     -- the harness builds /repo with overflow checks on (harness/Cargo.toml)
-    match digestAlloc true d with
+    match digestAlloc currentDepthBound true d with
     | .buckets n => pure (st, s!"buckets {n}")
     | .capacityOverflowPanic => pure (st, "panic capacity-overflow")
     | .shiftOverflowPanic => pure (st, "panic shift-overflow")
